@@ -1,4 +1,6 @@
 pub mod builtin;
+pub mod dedup;
+pub mod derived;
 pub mod evolution;
 pub mod faults;
 pub mod framing;
@@ -12,14 +14,18 @@ use serde_json::Value;
 pub fn run(cx: &Cx) -> PropResult {
     match cx.prop {
         "C01" => builtin::run_c01(cx),
+        "C02" => derived::run_c02(cx),
         "C03" => evolution::run_c03(cx),
         "C04" => builtin::run_c04(cx),
         "C05" => faults::run_c05(cx),
         "C06" => faults::run_c06(cx),
         "C07" => framing::run_c07(cx),
         "C08" => framing::run_c08(cx),
+        "C09" => dedup::run_c09(cx),
         "C11" => varint::run(cx),
         "C12" => framing::run_c12(cx),
+        "C13" => derived::run_c13(cx),
+        "C14" => derived::run_c14(cx),
         "C15" => sinks::run(cx),
         other => {
             eprintln!("unknown property {other}");
@@ -31,14 +37,18 @@ pub fn run(cx: &Cx) -> PropResult {
 pub fn replay(cx: &Cx, case: &Value) -> Verdict {
     match cx.prop {
         "C01" => builtin::replay_c01(case),
+        "C02" => derived::replay_c02(case),
         "C03" => evolution::replay_c03(case),
         "C04" => builtin::replay_c04(case),
         "C05" => faults::replay_c05(case),
         "C06" => faults::replay_c06(case),
         "C07" => framing::replay_c07(case),
         "C08" => framing::replay_c08(case),
+        "C09" => dedup::replay_c09(case),
         "C11" => varint::replay(case),
         "C12" => framing::replay_c12(case),
+        "C13" => derived::replay_c13(case),
+        "C14" => derived::replay_c14(case),
         "C15" => sinks::replay(case),
         other => {
             eprintln!("unknown property {other}");
@@ -51,7 +61,9 @@ pub fn replay(cx: &Cx, case: &Value) -> Verdict {
 /// are not regenerable
 pub fn regen(cx: &Cx, shard: usize, stream: u64, index: u64) -> Option<Value> {
     match cx.prop {
+        "C02" => derived::regen_c02(cx, shard, stream, index),
         "C05" => faults::regen_c05(cx, shard, stream, index),
+        "C09" => dedup::regen_c09(cx, shard, stream, index),
         "C06" => faults::regen_c06(cx, shard, stream, index),
         _ => None,
     }
